@@ -90,6 +90,29 @@ def check_eager_vs_model(fn, model_proto, specs, attrs, stats: Q.Stats, loop_bou
                 "inputs": None}, {"eager_paths": len(eres), "cut": cut}
     ginputs = {gn: inputs[n] for gn, (n, _, _) in zip(names, specs)}
     gres = I.interpret(model, ginputs, loop_bound=loop_bound, strict=strict)
+    # operator correspondence (side verdict, structural): every operator an eager path executes must be an operator of the exported
+    # graph (its subgraphs and functions included) - "every operator and op call denotes the ONNX operator it is documented to map to".
+    # Values are compared over the reals, where e.g. Not(Greater(a, b)) and LessOrEqual(a, b) agree; they differ on NaN.
+    gops = set()
+
+    def _walk(g):
+        for n in g:
+            gops.add(n.op_type)
+            for a in n.attributes.values():
+                if a.type == ir.AttributeType.GRAPH:
+                    _walk(a.value)
+                elif a.type == ir.AttributeType.GRAPHS:
+                    for sg in a.value:
+                        _walk(sg)
+    _walk(model.graph)
+    for f in model.functions.values():
+        _walk(f)
+    eops = set().union(*[set(r.get("eager_ops") or ()) for r in eres_live]) if eres_live else set()
+    extra = sorted(eops - gops - {"Cast", "CastLike", "Identity", "Constant"})
+    if extra:
+        return {"verdict": "cex", "kind": "operator-correspondence", "inputs": None,
+                "detail": f"eager evaluation executes operator(s) {extra} that the exported graph does not contain (graph operators: {sorted(gops)})"}, \
+               {"eager_paths": len(eres), "cut": cut, "graph_splits": len(gres)}
     v = Q.compare(eres_live, gres, ginputs, stats)
     v["input_names"] = dict(zip(names, [n for n, _, _ in specs]))
     return v, {"eager_paths": len(eres), "cut": cut, "graph_splits": len(gres)}
